@@ -410,15 +410,15 @@ func irFastMathFlags(olds []ast.FastMathFlag) []enum.FastMathFlag {
 
 // irFuncAttribute returns the IR function attribute corresponding to the given
 // AST function attribute.
-func (gen *generator) irFuncAttribute(old ast.FuncAttribute) ir.FuncAttribute {
+func (gen *generator) irFuncAttribute(old ast.FuncAttribute) (ir.FuncAttribute, error) {
 	switch old := old.(type) {
 	case *ast.AttrString:
-		return ir.AttrString(unquote(old.Text()))
+		return ir.AttrString(unquote(old.Text())), nil
 	case *ast.AttrPair:
 		return ir.AttrPair{
 			Key:   unquote(old.Key().Text()),
 			Value: unquote(old.Val().Text()),
-		}
+		}, nil
 	case *ast.AttrGroupID:
 		id := attrGroupID(*old)
 		def, ok := gen.new.attrGroupDefs[id]
@@ -434,16 +434,16 @@ func (gen *generator) irFuncAttribute(old ast.FuncAttribute) ir.FuncAttribute {
 			def = &ir.AttrGroupDef{ID: id}
 			gen.new.attrGroupDefs[id] = def
 		}
-		return def
+		return def, nil
 	// TODO: add support for Align.
 	//case *ast.Align:
 	//	return ir.Align(uintLit(old.N()))
 	case *ast.AlignPair:
-		return ir.Align(uintLit(old.N()))
+		return ir.Align(uintLit(old.N())), nil
 	case *ast.AlignStack:
-		return ir.AlignStack(uintLit(old.N()))
+		return ir.AlignStack(uintLit(old.N())), nil
 	case *ast.AlignStackPair:
-		return ir.AlignStack(uintLit(old.N()))
+		return ir.AlignStack(uintLit(old.N())), nil
 	case *ast.AllocKind:
 		rawKinds := unquote(old.AllocKinds().Text())
 		var kind enum.AllocKind
@@ -453,48 +453,48 @@ func (gen *generator) irFuncAttribute(old ast.FuncAttribute) ir.FuncAttribute {
 		}
 		return &ir.AllocKind{
 			Kind: kind,
-		}
+		}, nil
 	case *ast.AllocSize:
 		elemSizeIndex := int(uintLit(old.ElemSizeIndex()))
 		if nElemsIndex, ok := old.NElemsIndex(); ok {
 			return ir.AllocSize{
 				ElemSizeIndex: elemSizeIndex,
 				NElemsIndex:   int(uintLit(nElemsIndex)),
-			}
+			}, nil
 		}
 		return ir.AllocSize{
 			ElemSizeIndex: elemSizeIndex,
 			NElemsIndex:   -1,
-		}
+		}, nil
 	case *ast.FuncAttr:
-		return asmenum.FuncAttrFromString(old.Text())
+		return asmenum.FuncAttrFromString(old.Text()), nil
 	case *ast.Preallocated:
 		typ, err := gen.irType(old.Typ())
 		if err != nil {
-			panic(err.Error())
+			return nil, errors.WithStack(err)
 		}
-		return ir.Preallocated{Typ: typ}
+		return ir.Preallocated{Typ: typ}, nil
 	case *ast.UnwindTable:
 		if kind, ok := old.Kind(); ok {
 			return ir.UnwindTable{
 				Kind: asmenum.UnwindTableKindFromString(kind.Text()),
-			}
+			}, nil
 		}
 		return ir.UnwindTable{
 			Kind: enum.UnwindTableKindNone,
-		}
+		}, nil
 	case *ast.VectorScaleRange:
 		min := int(uintLit(old.Min()))
 		if max, ok := old.Max(); ok {
 			return ir.VectorScaleRange{
 				Min: min,
 				Max: int(uintLit(max)),
-			}
+			}, nil
 		}
 		return ir.VectorScaleRange{
 			Min: -1,  // NOTE: using -1 to denote omitted value.
 			Max: min, // NOTE: Min denotes Max if Max is not present.
-		}
+		}, nil
 	default:
 		panic(fmt.Errorf("support for function attribute %T not yet implemented", old))
 	}
